@@ -63,7 +63,6 @@ pub fn run_case(c: &Case, g: &mut G) -> Option<(String, String)> {
                 order.push((q, *s));
             }
         }
-        let parity = if c.scheme_rs { 1 } else { 0 };
         for (i, (q, s)) in order.iter().enumerate() {
             let mut o = ObjSpec::simple(SIZES[*s as usize], i as u8 + 1);
             o.oti = Some(if c.scheme_rs { OtiSpec::new(Scheme::Rs28, 4, 2, 1, true) } else { OtiSpec::new(Scheme::NoCode, 4, 2, 0, true) });
@@ -290,6 +289,9 @@ pub fn run_case(c: &Case, g: &mut G) -> Option<(String, String)> {
 }
 
 pub fn replay(v: &serde_json::Value) -> Vec<Violation> {
+    if v["check"] == "timed" {
+        return replay_timed(v);
+    }
     let c: Case = serde_json::from_value(v["case"].clone()).expect("case");
     let mut g = G::default();
     run_case(&c, &mut g).into_iter().map(|(key, what)| Violation { key, what, case: v.clone() }).collect()
@@ -383,6 +385,35 @@ pub fn run(thorough: bool) -> i32 {
             rep.add(Violation { key, what, case: json!({"check": "workload", "case": serde_json::to_value(c).unwrap()}) });
         }
     }
+    // ---- priority x timing ----
+    let tcases = Arc::new(timed_cases(thorough));
+    let tres = par_map_wd(
+        tcases.clone(),
+        Duration::from_secs(30),
+        |_, c| {
+            let mut g = TG::default();
+            let v = run_timed(c, &mut g);
+            (v, g)
+        },
+        |_, _| (Some(("C13/hang".into(), "timed session did not finish in 30 s".into())), TG::default()),
+    );
+    let mut tg = TG::default();
+    for (c, (v, gg)) in tcases.iter().zip(tres) {
+        tg.cases += gg.cases;
+        tg.runs += gg.runs;
+        tg.packets += gg.packets;
+        tg.lower_sent_while_higher_waited += gg.lower_sent_while_higher_waited;
+        tg.higher_resumed_after_lower += gg.higher_resumed_after_lower;
+        if let Some((key, what)) = v {
+            rep.add(Violation { key, what, case: json!({"check": "timed", "case": serde_json::to_value(c).unwrap()}) });
+        }
+    }
+    let ncases = ncases + tcases.len();
+    g.packets += tg.packets;
+    rep.cov("timed_cases", tg.cases);
+    rep.cov("timed_sender_runs", tg.runs);
+    rep.guard("timed_lower_queue_sends_while_higher_object_waits_then_higher_resumes", tg.higher_resumed_after_lower);
+    rep.sample(serde_json::to_value(&tcases[tcases.len() / 3]).unwrap());
     rep.cov("states", ncases as u64);
     rep.cov("transitions", g.packets);
     rep.cov("traces_validated_against_impl", ncases as u64);
@@ -395,8 +426,271 @@ pub fn run(thorough: bool) -> i32 {
     rep.guard("objects_multiplexed", g.multiplexed);
     rep.guard("blocks_interleaved", g.interleaved);
     rep.guard("late_higher_priority_object_preempts", g.late_preempts);
-    rep.sample(serde_json::to_value(&cases[ncases / 2]).unwrap());
-    rep.sample(serde_json::to_value(&cases[ncases - 1]).unwrap());
-    rep.assume("no start times, pacing or carousel here (C14): ready = published and transfers outstanding; fairness is checked between consecutive packets of one transfer");
+    rep.sample(serde_json::to_value(&cases[cases.len() / 2]).unwrap());
+    rep.sample(serde_json::to_value(&cases[cases.len() - 1]).unwrap());
+    rep.assume("workload family: no start times, pacing or carousel (ready = published and transfers outstanding); fairness is checked between consecutive packets of one transfer. Timed family: one timed object (start time, carousel delay/interval, pacing) per higher queue over plain long objects in the lowest queue, fixed poll step and per-poll budget; oracle = the packets of queues <= q leave at the same (poll, order) with and without the lower queues, and inside one instant no higher queue follows a lower one (when the timed object is due is C14's business)");
     rep.finish()
+}
+
+// ------------------------------------------------------------------------------------------------
+// Second family: priority x timing. A higher-priority object that waits (start time, carousel
+// delay/interval, pacing tick) lets lower queues send; the instant it is ready again it goes first.
+// Differential oracle, no hand-written timing model: the packets of the queues <= q are emitted at
+// exactly the same (poll, order) whether or not lower-priority queues exist.
+
+#[derive(Serialize, Deserialize, Clone, Debug, PartialEq)]
+pub struct Timed {
+    /// 0 start time, 1 carousel delay, 2 carousel interval, 3 pacing (target duration), 4 start time + pacing
+    pub kind: u8,
+    pub param_ms: u64,
+    /// index into SIZES
+    pub size: u8,
+}
+
+#[derive(Serialize, Deserialize, Clone, Debug)]
+pub struct TimedCase {
+    /// one timed object per queue, highest priority first; the last queue below them holds plain long objects
+    pub timed: Vec<Timed>,
+    pub step_ms: u64,
+    /// object packets read per poll
+    pub budget: usize,
+    pub multiplex: u32,
+    pub low_objs: usize,
+    pub polls: usize,
+    /// a plain (untimed) object in the top queue, added after the timed one
+    #[serde(default)]
+    pub top_plain: bool,
+}
+
+fn timed_obj(t: &Timed, salt: u8, prio: u32) -> ObjSpec {
+    let mut o = ObjSpec::simple(SIZES[t.size as usize], salt);
+    o.oti = Some(OtiSpec::new(Scheme::NoCode, 4, 2, 0, true));
+    o.prio = prio;
+    match t.kind {
+        0 => o.start_ms = Some(t.param_ms as i64),
+        1 => o.carousel = Some(Carousel::Delay(t.param_ms)),
+        2 => o.carousel = Some(Carousel::Interval(t.param_ms)),
+        3 => o.target = Some(Target::WithinMs(t.param_ms)),
+        _ => {
+            o.start_ms = Some(t.param_ms as i64 / 2);
+            o.target = Some(Target::WithinMs(t.param_ms));
+        }
+    }
+    o
+}
+
+/// (poll index, position among the object packets of that poll, catalogue index, sbn, esi)
+type Trace = Vec<(usize, usize, usize, u32, u32)>;
+
+/// queue of each catalogue object of the full run, and the packet count of the plain top-queue object
+fn timed_layout(c: &TimedCase) -> (Vec<usize>, Option<(usize, usize)>) {
+    let mut prio = Vec::new();
+    let mut plain = None;
+    for q in 0..c.timed.len() {
+        prio.push(q);
+        if q == 0 && c.top_plain {
+            plain = Some((prio.len(), SIZES[3].div_ceil(4)));
+            prio.push(0);
+        }
+    }
+    for _ in 0..c.low_objs {
+        prio.push(c.timed.len());
+    }
+    (prio, plain)
+}
+
+fn timed_run(c: &TimedCase, nqueues: usize) -> Result<Trace, (String, String)> {
+    let mut sess = SessSpec::basic(OtiSpec::new(Scheme::NoCode, 1424, 64, 0, true));
+    sess.queues = (0..=c.timed.len()).map(|q| (q as u32, c.multiplex)).collect();
+    let mut cat: Vec<ObjSpec> = Vec::new();
+    for (q, t) in c.timed.iter().enumerate().take(nqueues) {
+        cat.push(timed_obj(t, q as u8 + 1, q as u32));
+        if q == 0 && c.top_plain {
+            let mut o = ObjSpec::simple(SIZES[3], 40);
+            o.oti = Some(OtiSpec::new(Scheme::NoCode, 4, 2, 0, true));
+            o.prio = 0;
+            cat.push(o);
+        }
+    }
+    if nqueues > c.timed.len() {
+        for j in 0..c.low_objs {
+            let mut o = ObjSpec::simple(4 * (c.polls * c.budget + 3), 50 + j as u8);
+            o.oti = Some(OtiSpec::new(Scheme::NoCode, 4, 2, 0, true));
+            o.prio = c.timed.len() as u32;
+            cat.push(o);
+        }
+    }
+    let n = cat.len();
+    let mut sys = SendSys::new(&sess, Arc::new(cat));
+    for k in 0..n {
+        sys.apply(&Ev::Add(k));
+    }
+    sys.apply(&Ev::Publish);
+    let mut tr: Trace = Vec::new();
+    for poll in 0..c.polls {
+        let mut got = 0usize;
+        let mut reads = 0;
+        while got < c.budget {
+            let before = sys.log.len();
+            sys.apply(&Ev::Read1);
+            reads += 1;
+            if let Some(p) = &sys.panicked {
+                return Err((format!("C13/panic/{}", panic_sig(p)), format!("panic: {}", p)));
+            }
+            let mut any = false;
+            for it in &sys.log[before..] {
+                if let Item::Pkt(p) = it {
+                    any = true;
+                    if p.toi != 0 {
+                        let k = sys.toi_of.iter().position(|t| *t == Some(p.toi)).ok_or(("C13/unknown-toi".to_string(), format!("packet of unknown TOI {}", p.toi)))?;
+                        tr.push((poll, got, k, p.sbn, p.esi));
+                        got += 1;
+                    }
+                }
+            }
+            if !any {
+                break;
+            }
+            if reads > 200 {
+                return Err(("C13/timed/not-quiescent".into(), "one poll produced more than 200 packets without reaching its budget of object packets".into()));
+            }
+        }
+        sys.apply(&Ev::Tick(c.step_ms));
+    }
+    Ok(tr)
+}
+
+#[derive(Default, Clone)]
+pub struct TG {
+    pub cases: u64,
+    pub runs: u64,
+    pub packets: u64,
+    /// a lower queue sent at a poll where a higher timed object still had packets to come later
+    pub lower_sent_while_higher_waited: u64,
+    /// a higher timed object sent at a later poll than some lower-queue packet
+    pub higher_resumed_after_lower: u64,
+}
+
+pub fn run_timed(c: &TimedCase, g: &mut TG) -> Option<(String, String)> {
+    g.cases += 1;
+    let r = catch(|| -> Option<(String, String)> {
+        let nq = c.timed.len() + 1;
+        let full = match timed_run(c, nq) {
+            Ok(t) => t,
+            Err(e) => return Some(e),
+        };
+        g.runs += 1;
+        g.packets += full.len() as u64;
+        let (prio, plain) = timed_layout(c);
+        let prio_of = |k: usize| -> usize { prio[k] };
+        // absolute clause for the untimed object of the top queue: until it is fully sent nothing of a
+        // lower queue leaves - unless it is itself waiting for the queue's only slot, held by a paced object
+        if let Some((k, needed)) = plain {
+            if c.multiplex >= 2 || c.timed[0].kind <= 2 {
+                let mut sent = 0;
+                for x in &full {
+                    if x.2 == k {
+                        sent += 1;
+                    } else if prio_of(x.2) > 0 && sent < needed {
+                        return Some((
+                            "C13/timed/lower-priority-packet-while-higher-ready".into(),
+                            format!("poll {}: packet of queue {} while the plain object of queue 0 (published, no timing) has sent {} of {} packets", x.0, prio_of(x.2), sent, needed),
+                        ));
+                    }
+                }
+            }
+        }
+        // inside one poll (one instant) a higher queue never follows a lower one
+        for w in full.windows(2) {
+            if w[0].0 == w[1].0 && prio_of(w[1].2) < prio_of(w[0].2) {
+                return Some((
+                    "C13/timed/lower-before-higher-at-one-instant".into(),
+                    format!("poll {} (t = {} ms): a packet of queue {} is followed, at the same instant, by a packet of the higher-priority queue {}", w[0].0, w[0].0 as u64 * c.step_ms, prio_of(w[0].2), prio_of(w[1].2)),
+                ));
+            }
+        }
+        for q in 1..nq {
+            let part = match timed_run(c, q) {
+                Ok(t) => t,
+                Err(e) => return Some(e),
+            };
+            g.runs += 1;
+            let proj: Vec<(usize, usize, u32, u32)> = full.iter().filter(|x| prio_of(x.2) < q).map(|x| (x.0, x.2, x.3, x.4)).collect();
+            let alone: Vec<(usize, usize, u32, u32)> = part.iter().map(|x| (x.0, x.2, x.3, x.4)).collect();
+            if proj != alone {
+                let i = proj.iter().zip(alone.iter()).position(|(a, b)| a != b).unwrap_or(proj.len().min(alone.len()));
+                return Some((
+                    "C13/timed/higher-queues-disturbed-by-lower".into(),
+                    format!(
+                        "queues 0..{}: with the lower queues present their packet #{} is {:?}, without them {:?} ((poll, object, sbn, esi); poll step {} ms, {} object packets per poll)",
+                        q,
+                        i,
+                        proj.get(i),
+                        alone.get(i),
+                        c.step_ms,
+                        c.budget
+                    ),
+                ));
+            }
+        }
+        let last_poll_of_higher = full.iter().filter(|x| prio_of(x.2) < c.timed.len()).map(|x| x.0).max();
+        let first_poll_of_lowest = full.iter().filter(|x| prio_of(x.2) == c.timed.len()).map(|x| x.0).min();
+        if let (Some(h), Some(l)) = (last_poll_of_higher, first_poll_of_lowest) {
+            if l < h {
+                g.lower_sent_while_higher_waited += 1;
+                g.higher_resumed_after_lower += 1;
+            }
+        }
+        None
+    });
+    match r {
+        Ok(v) => v,
+        Err(p) => Some((format!("C13/panic/{}", panic_sig(&p)), format!("panic: {}", p))),
+    }
+}
+
+pub fn replay_timed(v: &serde_json::Value) -> Vec<Violation> {
+    let c: TimedCase = serde_json::from_value(v["case"].clone()).expect("case");
+    let mut g = TG::default();
+    run_timed(&c, &mut g).into_iter().map(|(key, what)| Violation { key, what, case: v.clone() }).collect()
+}
+
+pub fn timed_cases(thorough: bool) -> Vec<TimedCase> {
+    let mut v = Vec::new();
+    let params: &[u64] = if thorough { &[0, 100, 300, 1000, 2500] } else { &[0, 300, 1000] };
+    let steps: &[u64] = if thorough { &[50, 100, 250, 700] } else { &[100, 250, 700] };
+    let mut tops: Vec<Timed> = Vec::new();
+    for kind in 0..5u8 {
+        for &param_ms in params {
+            for size in 1..4u8 {
+                tops.push(Timed { kind, param_ms, size });
+            }
+        }
+    }
+    let mids = [Timed { kind: 1, param_ms: 500, size: 2 }, Timed { kind: 3, param_ms: 1200, size: 3 }, Timed { kind: 0, param_ms: 400, size: 1 }, Timed { kind: 2, param_ms: 600, size: 2 }];
+    for t in &tops {
+        for &step_ms in steps {
+            for budget in [1usize, 2, 5] {
+                for multiplex in [1u32, 2] {
+                    for low_objs in [1usize, 2] {
+                        if low_objs == 2 && multiplex == 1 && !thorough {
+                            continue;
+                        }
+                        v.push(TimedCase { timed: vec![t.clone()], step_ms, budget, multiplex, low_objs, polls: 14, top_plain: false });
+                        v.push(TimedCase { timed: vec![t.clone()], step_ms, budget, multiplex, low_objs, polls: 14, top_plain: true });
+                        for m in &mids {
+                            if !thorough && (budget == 5 || low_objs == 2) {
+                                continue;
+                            }
+                            v.push(TimedCase { timed: vec![t.clone(), m.clone()], step_ms, budget, multiplex, low_objs, polls: 14, top_plain: budget == 2 });
+                            if thorough {
+                                v.push(TimedCase { timed: vec![m.clone(), t.clone()], step_ms, budget, multiplex, low_objs, polls: 14, top_plain: budget == 1 });
+                            }
+                        }
+                    }
+                }
+            }
+        }
+    }
+    v
 }
